@@ -20,8 +20,9 @@ type knownFinding struct {
 type knownFindings struct{ list []knownFinding }
 
 // KNOWN_FINDINGS.txt lines:
-//   known: property=C03 obligation=<regexp> <what fails>
-//   fixed: property=C07 <commit> <what failed>       (suppresses nothing)
+//
+//	known: property=C03 obligation=<regexp> <what fails>
+//	fixed: property=C07 <commit> <what failed>       (suppresses nothing)
 func loadKnownFindings() *knownFindings {
 	kf := &knownFindings{}
 	f, err := os.Open(filepath.Join(verifDir, "KNOWN_FINDINGS.txt"))
